@@ -306,3 +306,69 @@ for _n, _op, _rel in (("Lt", "__lt__", lambda a, b: a < b), ("Le", "__le__", lam
                       ("Eq", "__eq__", lambda a, b: a == b), ("Ne", "__ne__", lambda a, b: a != b)):
     register(type("LcVsFxp" + _n, (_LcVsFxp,), dict(name="pysnark.runtime:LinComb.%s#fxp" % _op, op=_op, rel=staticmethod(_rel),
                                                    __doc__="LinComb %s LinCombFxp: order of the represented numbers" % _op)))
+
+
+# ---------------------------------------------------------------------------
+# assertions, tests and shifts of LinCombFxp (delegations to the representation)
+# ---------------------------------------------------------------------------
+
+class _FxpAssert(_Fxp):
+    rel = None
+    sprops = ("C03", "C14")
+    eprops = ("C03", "C14")
+    vprops = ("C03", "C14")
+    raises_unspecified = False
+    covers_normal = False
+    kinds = ("fxp", "int", "float0")
+
+    def configs(self, tier):
+        return [dict(mode=m, kind=k, res=r, bits=5) for r in (3,) for m in ("plain", "ie") for k in self.kinds]
+
+    def pre(self, c, x, y, err=None):
+        return [(1 << (c.bitlength + 1)) < c.p]
+
+    def raises(self, c, x, y, err=None):
+        X, Y = c.v(x), self._yrep
+        d = self.diff(X, Y)
+        bad = Not(self.rel(X, Y)) if self.diff is None else Or(Not(self.rel(X, Y)), d >= (1 << c.bitlength))
+        out = [(AssertionError, And(Not(ie(c)), bad))]
+        if self.neg:
+            out.append((ZeroDivisionError, And(isg(c), X != Y, (X - Y) % c.p == 0)))
+        return out
+
+    neg = False
+
+    def post(self, c, r, x, y, err=None):
+        X, Y = c.v(x), self._yrep
+        tied = c.tied(x) if not hasattr(y, "lc") else And(c.tied(x), c.tied(y))
+        q = c.p // 4
+        sm = And(X > -q, X < q, Y > -q, Y < q)
+        return {"E.enforced": Implies(And(on(c), tied, sm), self.rel(X, Y))}
+
+
+for _n, _rel, _diff, _neg in (("assert_lt", lambda a, b: a < b, lambda a, b: b - a - 1, False), ("assert_le", lambda a, b: a <= b, lambda a, b: b - a, False),
+                              ("assert_gt", lambda a, b: a > b, lambda a, b: a - b - 1, False), ("assert_ge", lambda a, b: a >= b, lambda a, b: a - b, False),
+                              ("assert_eq", lambda a, b: a == b, lambda a, b: z3.IntVal(0), False), ("assert_ne", lambda a, b: a != b, lambda a, b: z3.IntVal(0), True)):
+    register(type("FxpAssert" + _n, (_FxpAssert,), dict(name="pysnark.fixedpoint:LinCombFxp." + _n, op=_n, rel=staticmethod(_rel),
+                                                       diff=staticmethod(_diff), neg=_neg,
+                                                       __doc__="fixed-point %s: the relation of the representations is enforced" % _n)))
+
+
+@register
+class FxpShift(_Fxp):
+    """a << k, a >> k on the representation"""
+    name = "pysnark.fixedpoint:LinCombFxp.__lshift__"
+    op = "__lshift__"
+    kinds = ("none",)
+
+    def configs(self, tier):
+        return [dict(mode="plain", kind="none", res=3, bits=5, k=k) for k in (0, 2)]
+
+    def setup(self, c, cfg):
+        apply_mode(c, cfg["mode"], bitlength=cfg["bits"])
+        c.w.modules["pysnark.fixedpoint"].resolution = cfg["res"]
+        self._x = c.mk_fxp(c.operand("x"))
+        return c.LinCombFxp.__lshift__, (self._x, cfg["k"]), {}
+
+    def post(self, c, r, x, k):
+        return {"V.type": isinstance(r, c.LinCombFxp), "V.value": Eq(c.v(r), c.v(x) * (1 << k)), "V.inv": c.inv(r)}
